@@ -231,6 +231,33 @@ def gen_cases(rng, proxy, port, dirlen, n, focus):
     def one(b, cuts=(), end="keep"):
         groups.append([Case(b, safe_cuts(proxy, b, cuts), end)])
 
+    if focus == "leak":
+        # state carried from one request/connection into the next: a .vnc page with valid parameters,
+        # then pages that contain $PARAMS requested without '?', with bad parameters, the reverse order, three in a row
+        with_q = [b"/index.vnc?password=hunter2&host=internal.example", b"/?password=hunter2", b"/q.vnc?a=b&c=d+e",
+                  b"/index.vnc?" + b"&".join([b"k%d=v%d" % (j, j) for j in range(30)]), b"/q.vnc?x=1"]
+        no_q = [b"/index.vnc", b"/", b"/q.vnc"]
+        bad_q = [b"/index.vnc?x=<script>", b"/q.vnc?", b"/?a", b"/q.vnc?a=b&", b"/index.vnc?" + b"n" * 200 + b"=v"]
+        other = [b"/a.txt", b"/a.txt?secret=1", b"/nonexist?s=t", b"/../secret?u=v", b"/sub/index.vnc?w=x"]
+
+        def rq(t):
+            return Case(b"GET " + t + rng.choice([b" HTTP/1.0\r\n\r\n", b"\n\n", b" HTTP/1.1\r\nHost: h\r\n\r\n"]))
+        for _ in range(n):
+            k = rng.random()
+            if k < 0.35:
+                seq = [rng.choice(with_q), rng.choice(no_q)]
+            elif k < 0.5:
+                seq = [rng.choice(no_q), rng.choice(with_q), rng.choice(no_q)]
+            elif k < 0.65:
+                seq = [rng.choice(with_q), rng.choice(bad_q), rng.choice(no_q)]
+            elif k < 0.8:
+                seq = [rng.choice(with_q), rng.choice(other), rng.choice(no_q)]
+            elif k < 0.9:
+                seq = [rng.choice(with_q), rng.choice(with_q), rng.choice(no_q), rng.choice(no_q)]
+            else:
+                seq = [rng.choice(with_q + bad_q + no_q + other) for _ in range(rng.randint(2, 5))]
+            groups.append([rq(t) for t in seq])
+        return groups
     if focus == "long":
         for b in lg:
             one(b)
@@ -350,6 +377,39 @@ def valid_get(seen):
     return path
 
 
+def query_of(seen):
+    """query string of the request target (bytes after the first '?'), None when there is no '?'"""
+    s = seen.split(b"\x00", 1)[0]
+    line = re.split(rb"[\r\n]", s, 1)[0]
+    m = re.match(rb"GET[ \t\x0b\x0c]+([^ \t\x0b\x0c]+)", line)
+    if not m or b"?" not in m.group(1):
+        return None
+    return m.group(1).split(b"?", 1)[1]
+
+
+def pairs_of(q):
+    """name/value pairs a query string can legitimately contribute to $PARAMS ('+' shown as ' ')"""
+    out = set()
+    if q is None:
+        return out
+    for seg in q.split(b"&"):
+        i = seg.find(b"=", 1)
+        if i >= 1:
+            out.add((seg[:i].replace(b"+", b" "), seg[i + 1:].replace(b"+", b" ")))
+    return out
+
+
+PAIR_RE = re.compile(rb'<PARAM NAME="([^"]*)" VALUE="([^"]*)">\n')
+
+
+def params_from_this_request(region, candidates):
+    """is the $PARAMS region made only of pairs of THIS request's query (one of the readings of it)?"""
+    got = PAIR_RE.findall(region)
+    if b"".join(b'<PARAM NAME="%s" VALUE="%s">\n' % g for g in got) != region:
+        return False
+    return any(all(g in pairs_of(q) for g in got) for q in candidates)
+
+
 def parse_ob(ob):
     d = {}
     for t in ob.split():
@@ -440,9 +500,14 @@ def oracle(sc, impl):
                 exp = fnv(c if c is not None else b"")
                 if int(d["bhash"], 16) != exp:
                     return "op %d: body is not the content of the opened file %r" % (i, want)
-            if d["par"] != "-" and content_of(sc["files"], sc["dirs"], want) in (INDEX, b"\x01$PARAMS\x02"):
-                if not PARAM_RE.match(unhx(d["par"][1:])):
-                    return "op %d: $PARAMS expansion leaves the harmless alphabet: %r" % (i, unhx(d["par"][1:]))
+            if d["par"] != "-" and c is not None and c.count(b"\x01") == 1 and b"\x01$PARAMS\x02" in c:
+                region = unhx(d["par"][1:])
+                if not PARAM_RE.match(region):
+                    return "op %d: $PARAMS expansion leaves the harmless alphabet: %r" % (i, region)
+                cands = [query_of(seen)] + ([query_of(whole)] if whole != seen and terminator_seen(whole) else [])
+                if not params_from_this_request(region, cands):
+                    return ("op %d: $PARAMS expansion is not derived from this request's query %r "
+                            "(state of another request leaks into this answer): %r" % (i, cands[0], region))
         else:
             if opened and vg is None:
                 return "op %d: file opened for something that is not a GET of a path below the directory" % i
@@ -525,7 +590,7 @@ def shrink(ctx, sc, h, d, f, env):
         bad = len(f.get("impl_all", []))
     if bad is None or bad < nset or bad >= len(lines):
         return f
-    for back in (0, 1, 2):
+    for back in (0, 1, 2, 3, 4, 6, 10, 20, 40, 80):
         if bad - back < nset:
             break
         small = "\n".join(lines[:nset] + lines[bad - back:bad + 1]) + "\n"
@@ -587,6 +652,7 @@ def _run(ctx, env):
         for proxy in (0, 1):
             for k in range(4 if quick else 12):
                 plan.append((proxy, rng.choice([70, 255]), "seg"))
+            plan.append((proxy, rng.choice([70, 200]), "leak"))
             plan.append((proxy, 80, "long"))
             plan.append((proxy, 255, "long"))
         for k in range(10 if quick else 150):
@@ -638,15 +704,7 @@ def _run(ctx, env):
             bump("proxy", sc["proxy"])
             if terminator_seen(b):
                 seen.add((sc["proxy"], sc["port"], sc["dirlen"], t[1], t[2], t[3]))
-        if f:
-            if f["kind"] == "crash":
-                f["impl_all"] = impl
-            f["origin"] = sc.get("origin")
-            f2 = shrink(ctx, sc, h, d, f, env)
-            f2.pop("impl_all", None)
-            f2["origin"] = sc.get("origin")
-            tag_finding(f2)
-            fails.append(f2)
+        # the model-independent oracle first: a concrete counterexample outranks model/code drift
         if not (f and f["kind"] == "crash"):
             o = oracle(sc, impl)
             if o:
@@ -658,6 +716,15 @@ def _run(ctx, env):
                     ff = shrink(ctx, sc, h, d, ff, env)
                     ff["origin"] = sc.get("origin")
                 fails.append(ff)
+        if f:
+            if f["kind"] == "crash":
+                f["impl_all"] = impl
+            f["origin"] = sc.get("origin")
+            f2 = shrink(ctx, sc, h, d, f, env)
+            f2.pop("impl_all", None)
+            f2["origin"] = sc.get("origin")
+            tag_finding(f2)
+            fails.append(f2)
         if len(samples) < 3 and sc.get("origin", "").startswith("gen"):
             k = next(i for i, l in enumerate(ops) if l.startswith("cfg"))
             samples.append({"script": [l[:200] for l in ops[k:k + 6]], "impl": impl[k:k + 6]})
